@@ -1,5 +1,6 @@
 (* Case runner and spec checker (T3) for C16. *)
 From WI Require Import Lib.Base Lib.Info Lib.CurveRow Model.Curve.
+From WI Require Model.Render.
 From WI Require Spec.C16.
 Open Scope N_scope.
 
@@ -15,7 +16,7 @@ Definition optz_of_arg (a : arg) : option Z :=
 Fixpoint be_min_fuel (fuel : nat) (n : N) (acc : bytes) : bytes :=
   match fuel with
   | O => acc
-  | S f => if n =? 0 then acc else be_min_fuel f (n / 256) ((n mod 256) :: acc)
+  | S f => if n =? 0 then acc else be_min_fuel f (N.shiftr n 8) (N.land n 255 :: acc)
   end.
 Definition be_min (n : N) : bytes := be_min_fuel (S (N.to_nat (N.size n))) n [].
 Definition arg_of_z (z : Z) : arg :=
@@ -40,10 +41,43 @@ Definition arg_of_row (c : curve_row) : arg :=
       AB (c_a c); AB (c_b c); AB (c_gx c); AB (c_gy c); AB (c_seed c);
       AL (map (fun lc => AL [AZ (Z.of_N (fst lc)); AZ (Z.of_N (snd lc))]) (c_lencap c))].
 
+(* obj = (kind pem st): st = (2 fields) | (1) | (0) one EC container; (3 info (fields?)) another object,
+   its report recorded by the harness; (4 obj...) a PEM bundle; (5 top obj...) a keystore *)
+Definition st_code (d : arg) : N := arg_N (arg_nth 0 (arg_nth 2 d)).
+
+Definition block_of_arg (d : arg) : pem_block :=
+  let st := arg_nth 2 d in
+  if st_code d =? 3 then BOther (info_of_arg (arg_nth 1 st))
+  else BEC (arg_N (arg_nth 0 d)) (st_code d) (params_of_arg (arg_nth 1 st)).
+
+Definition carrier_of_arg (d : arg) : carrier :=
+  let st := arg_nth 2 d in
+  let code := st_code d in
+  if code =? 4 then CBundle (map block_of_arg (tl (arg_list st)))
+  else if code =? 5 then
+    CKeystore (info_of_arg (arg_nth 1 st))
+              (map (fun e => info_of_arg (arg_nth 1 (arg_nth 2 e))) (drop 2 (arg_list st)))
+  else if code =? 3 then COther (info_of_arg (arg_nth 1 st))
+  else CSingle (arg_N (arg_nth 0 d)) (arg_bool (arg_nth 1 d)) code (params_of_arg (arg_nth 1 st)).
+
+(* cmd/decipher/main.go: inspectFile prints "path: " and the report of each file in turn
+   (Model/Render.v: report), for the files of a directory in the order of their names (-r) or for the
+   arguments in their order; the harness lists the files in that order *)
+Fixpoint cli_output (files : list (bytes * carrier)) : result bytes :=
+  match files with
+  | [] => Ok []
+  | (path, c) :: rest =>
+      let* i := describe_fast c in
+      let* out := cli_output rest in
+      Ok (WI.Model.Render.report path i ++ out)
+  end.
+
+(* The runner evaluates the fast instances of the model (numeric key lookup);
+   Props/C16.v, C16_runner_is_the_model: they equal curve_name / container_info / describe everywhere. *)
 Definition run_C16 (op : bytes) (input : arg) : arg :=
   if bytes_eqb op (bs "match") then
     let p := params_of_arg (arg_nth 0 input) in
-    AL [obs_result AB (curve_name p);
+    AL [obs_result AB (params_curve_name_fast p);
         AL (map (fun c => obs_result ok_arg (params_match c p)) table)]
   else if bytes_eqb op (bs "unmarshal") then
     (* the decoder must give back the field values that were encoded *)
@@ -56,11 +90,21 @@ Definition run_C16 (op : bytes) (input : arg) : arg :=
     let pem := arg_bool (arg_nth 1 input) in
     let st := arg_nth 2 input in
     obs_result arg_of_info
-      (container_info kind pem (arg_N (arg_nth 0 st)) (params_of_arg (arg_nth 1 st)))
+      (container_info_fast kind pem (arg_N (arg_nth 0 st)) (params_of_arg (arg_nth 1 st)))
   else if bytes_eqb op (bs "inspectx") then
     AL [AZ 0%Z; AL []]
   else if bytes_eqb op (bs "table") then
     AL (map arg_of_row table)
+  else if bytes_eqb op (bs "bundle") || bytes_eqb op (bs "keystore") then
+    obs_result arg_of_info (describe_fast (carrier_of_arg (arg_nth 0 input)))
+  else if bytes_eqb op (bs "history") then
+    AL (map (fun r => obs_result arg_of_info r)
+            (describe_history_fast (map (fun it => carrier_of_arg (arg_nth 0 it)) (arg_list input))))
+  else if bytes_eqb op (bs "cli") then
+    match cli_output (map (fun f => (arg_bytes (arg_nth 0 f), carrier_of_arg (arg_nth 1 f))) (arg_list (arg_nth 1 input))) with
+    | Ok out => AL [AZ 0%Z; AB out]
+    | _ => AL [AZ 1%Z]
+    end
   else AL [].
 
 (* ---------- the property, evaluated on the implementation's observation (T3) ----------
@@ -88,6 +132,8 @@ Definition check_name (fields : option arg) (shown : bytes) : option string :=
       end
   end.
 
+Definition is_nil_b {A} (l : list A) : bool := match l with [] => true | _ => false end.
+
 Fixpoint first_some {A} (l : list (option A)) : option A :=
   match l with [] => None | Some x :: _ => Some x | None :: r => first_some r end.
 
@@ -101,6 +147,123 @@ Fixpoint inferred_in (i : info) : list bytes :=
 
 Definition verdict (o : option string) : arg :=
   match o with None => AL [] | Some s => AB (bytes_of_string s) end.
+
+(* ---------- several objects in one carrier, several inspections in one process ----------
+   Each DESCRIBED OBJECT is judged by its OWN parameters: the part of the report that describes
+   object i may name a curve only if the components of object i are that curve's.  The claimed
+   names of a part are its "Curve (inferred)" values and, for an object that carries explicit
+   parameters, its "Curve" values too (an object with explicit parameters has no curve name of
+   its own: any name shown for it is inferred). *)
+Definition view : Type := (list bytes * list bytes)%type.   (* "Curve (inferred)" values, "Curve" values *)
+
+Definition values_named (n : bytes) (attrs : list (bytes * bytes)) : list bytes :=
+  map snd (filter (fun nv => bytes_eqb (fst nv) n) attrs).
+Definition view_of_attrs (attrs : list (bytes * bytes)) : view :=
+  (values_named (bs "Curve (inferred)") attrs, values_named (bs "Curve") attrs).
+Fixpoint named_in (i : info) : list bytes :=
+  match i with
+  | Info _ attrs ch => values_named (bs "Curve") attrs ++ flat_map named_in ch
+  end.
+Definition view_of_info (i : info) : view := (inferred_in i, named_in i).
+
+(* the same from the printed report: "<indent>name: value" lines *)
+Fixpoint strip_spaces (l : bytes) : bytes :=
+  match l with c :: r => if c =? 32 then strip_spaces r else l | [] => [] end.
+Fixpoint indent_of (l : bytes) : nat :=
+  match l with c :: r => if c =? 32 then S (indent_of r) else O | [] => O end.
+Definition after_prefix (p l : bytes) : list bytes :=
+  if prefix_of p l then [drop (length p) l] else [].
+Definition view_of_lines (ls : list bytes) : view :=
+  (flat_map (fun l => after_prefix (bs "Curve (inferred): ") (strip_spaces l)) ls,
+   flat_map (fun l => after_prefix (bs "Curve: ") (strip_spaces l)) ls).
+
+Fixpoint split_lf_acc (cur : bytes) (s : bytes) : list bytes :=
+  match s with
+  | [] => match cur with [] => [] | _ => [rev cur] end
+  | c :: r => if c =? 10 then rev cur :: split_lf_acc [] r else split_lf_acc (c :: cur) r
+  end.
+Definition split_lf (s : bytes) : list bytes := split_lf_acc [] s.
+
+(* the lines before the first line indented by exactly n, then the groups each such line opens *)
+Fixpoint split_groups (n : nat) (ls : list bytes) : list bytes * list (list bytes) :=
+  match ls with
+  | [] => ([], [])
+  | l :: r => let (cur, gs) := split_groups n r in
+              if Nat.eqb (indent_of l) n then ([], (l :: cur) :: gs) else (l :: cur, gs)
+  end.
+
+(* the explicit parameters an object carries itself *)
+Definition obj_fields (d : arg) : option arg :=
+  let st := arg_nth 2 d in
+  if st_code d =? 2 then Some (arg_nth 1 st)
+  else if st_code d =? 3 then match arg_list (arg_nth 2 st) with f :: _ => Some f | [] => None end
+  else None.
+
+Definition claimed (d : arg) (v : view) : list bytes :=
+  fst v ++ match obj_fields d with Some _ => snd v | None => [] end.
+
+Definition check_own (d : arg) (v : view) : option string :=
+  first_some (map (fun shown =>
+    match check_name (obj_fields d) shown with
+    | None => None
+    | Some _ =>
+        match obj_fields d with
+        | Some _ => Some "a curve name is reported for an object whose OWN explicit parameters differ from that curve's in a component (prime, a, b, base point or order)"%string
+        | None => Some "a curve name is reported as inferred for an object that carries no decodable explicit parameters of its own"%string
+        end
+    end) (claimed d v)).
+
+(* a part of the report that cannot be attributed to one object: some object must justify the name *)
+Definition check_any (ds : list arg) (v : view) : option string :=
+  first_some (map (fun shown =>
+    match nist (first_word shown) with
+    | None => Some "a curve name is reported as inferred that is not one of P-224/P-256/P-384/P-521"%string
+    | Some k =>
+        if existsb (fun d => match obj_fields d with Some f => components_equal true k f | None => false end) ds
+        then None
+        else Some "a curve name is reported as inferred although no object in the carrier has that curve's components"%string
+    end) (fst v)).
+
+Definition check_aligned (ds : list arg) (top : view) (parts : list view) (whole : view) : option string :=
+  if Nat.eqb (length parts) (length ds) then
+    first_some (check_any ds top :: map (fun dv => check_own (fst dv) (snd dv)) (combine ds parts))
+  else check_any ds whole.
+
+Definition members (d : arg) : list arg :=
+  let l := arg_list (arg_nth 2 d) in
+  if st_code d =? 4 then tl l else if st_code d =? 5 then drop 2 l else [].
+
+Definition check_obj_info (d : arg) (i : info) : option string :=
+  if st_code d =? 4 then
+    match members d with
+    | [m] => check_own m (view_of_info i)       (* one block: its report is the file's *)
+    | ms => check_aligned ms (view_of_attrs (i_attrs i)) (map view_of_info (i_children i)) (view_of_info i)
+    end
+  else if st_code d =? 5 then
+    check_aligned (members d) (view_of_attrs (i_attrs i)) (map view_of_info (i_children i)) (view_of_info i)
+  else check_own d (view_of_info i).
+
+(* the printed report of one file: its first line is "path: description" *)
+Definition check_obj_lines (d : arg) (ls : list bytes) : option string :=
+  if st_code d =? 4 then
+    match members d with
+    | [m] => check_own m (view_of_lines ls)
+    | ms => let (top, gs) := split_groups 2 (tl ls) in
+            check_aligned ms (view_of_lines top) (map view_of_lines gs) (view_of_lines ls)
+    end
+  else if st_code d =? 5 then
+    let (top, gs) := split_groups 2 (tl ls) in
+    check_aligned (members d) (view_of_lines top) (map view_of_lines gs) (view_of_lines ls)
+  else check_own d (view_of_lines ls).
+
+Definition leaves (d : arg) : list arg := match members d with [] => [d] | ms => ms end.
+
+Definition check_cli (files : list (bytes * arg)) (ls : list bytes) : option string :=
+  let (pre, gs) := split_groups 0 ls in
+  if Nat.eqb (length gs) (length files) && is_nil_b pre &&
+     forallb (fun fg => prefix_of (fst (fst fg) ++ [58; 32]) (hd [] (snd fg))) (combine files gs)
+  then first_some (map (fun fg => check_obj_lines (snd (fst fg)) (snd fg)) (combine files gs))
+  else check_any (flat_map (fun f => leaves (snd f)) files) (view_of_lines ls).
 
 Definition check_C16 (op : bytes) (input impl : arg) : arg :=
   if bytes_eqb op (bs "match") then
@@ -130,6 +293,24 @@ Definition check_C16 (op : bytes) (input impl : arg) : arg :=
     match impl with
     | AL [AZ 0%Z; i] => verdict (first_some (map (check_name fields) (inferred_in (info_of_arg i))))
     | _ => AS "inspection of a file with explicit EC parameters failed (panic or error)"
+    end
+  else if bytes_eqb op (bs "bundle") || bytes_eqb op (bs "keystore") then
+    match impl with
+    | AL [AZ 0%Z; i] => verdict (check_obj_info (arg_nth 0 input) (info_of_arg i))
+    | _ => AS "inspection of a carrier of several objects with explicit EC parameters failed (panic or error)"
+    end
+  else if bytes_eqb op (bs "history") then
+    verdict (first_some (map (fun it_o =>
+      match snd it_o with
+      | AL [AZ 0%Z; i] => check_obj_info (arg_nth 0 (fst it_o)) (info_of_arg i)
+      | _ => Some "inspection of a file with explicit EC parameters failed (panic or error) after another file had been inspected"%string
+      end) (combine (arg_list input) (arg_list impl))))
+  else if bytes_eqb op (bs "cli") then
+    let files := arg_list (arg_nth 1 input) in
+    match impl with
+    | AL [AZ 0%Z; AB out] =>
+        verdict (check_cli (map (fun f => (arg_bytes (arg_nth 0 f), arg_nth 1 f)) files) (split_lf out))
+    | _ => AS "the command-line tool failed (non-zero exit) on files with explicit EC parameters"
     end
   else if bytes_eqb op (bs "inspectx") then
     match impl with
